@@ -41,6 +41,7 @@ var wanted = []string{
 	"NewRawSuite", "NewSuite", "IsKnownSuite", "SuiteConfigFromRaws",
 	"To8ByteBigEndian", "ParseDecimalToBigEndian8", "ParseDecimal64BigEndian", "LeftPadHex", "MustHexPadLeft",
 	"ParseHexTimestamp", "ParseDecimalChallengeRFC6287", "HexInputToOCRA", "RandomSecret",
+	"Algorithm.String", "generateOTPURL", "GenerateTOTPURL", "GenerateHOTPURL", "ParseOTPAuthURL",
 }
 
 type tr struct {
@@ -56,6 +57,7 @@ type tr struct {
 	consts []string // harvested literals (for the input generators)
 	globalNames  map[string]string
 	globalTables map[string]bool
+	globalAssoc  map[string]bool
 	ifaceUsed    map[string]bool
 	structsBad   string
 }
@@ -155,7 +157,7 @@ func main() {
 	t.harvest()
 	var b strings.Builder
 	b.WriteString("(* GENERATED from the Go sources of " + repo + " by /verif/tools/gen_model — do not edit. *)\n")
-	b.WriteString("From Coq Require Import String.\nFrom OtpV Require Import Prelude Sha GoSem Rfc4648 Errors Decoder Otp Ocra Utils Suite.\nOpen Scope N_scope.\n\n")
+	b.WriteString("From Coq Require Import String.\nFrom OtpV Require Import Prelude Sha GoSem Rfc4648 Errors Decoder Otp Ocra Utils Suite Url.\nOpen Scope N_scope.\n\n")
 	b.WriteString(t.globals())
 	for _, q := range wanted {
 		t.translate(q)
